@@ -13,6 +13,8 @@ import (
 	"io"
 	"math"
 	"os"
+	"regexp"
+	"strings"
 
 	"github.com/tobgu/qframe"
 	"github.com/tobgu/qframe/config/eval"
@@ -297,7 +299,7 @@ func (c *Clause) build() qframe.FilterClause {
 func (c *Clause) tla(qf qframe.QFrame) Ev {
 	switch c.K {
 	case "leaf":
-		e := Ev{"k": "leaf", "col": c.Col, "cmpk": c.CmpK, "cmp": c.Cmp, "inv": b2i(c.Inv), "tbl": [][]Cell{}, "argt": "", "conv": [][]Cell{}}
+		e := Ev{"k": "leaf", "col": c.Col, "cmpk": c.CmpK, "cmp": c.Cmp, "inv": b2i(c.Inv), "tbl": [][]Cell{}, "argt": "", "conv": [][]Cell{}, "rx": [][]interface{}{}}
 		arg := &Val{T: "nil"}
 		if c.Arg != nil {
 			arg = c.Arg
@@ -326,6 +328,9 @@ func (c *Clause) tla(qf qframe.QFrame) Ev {
 				e["tbl"] = t.Rows
 			}
 		}
+		if c.CmpK == "str" && (c.Cmp == "like" || c.Cmp == "ilike") && arg.T == "string" && (ct == "string" || ct == "enum") {
+			likeTables(e, c.Cmp == "ilike", arg.S.String(), colVals(qf, c.Col.String()))
+		}
 		if arg.T == "col" {
 			// int <-> float column comparison promotes the int column: log Go's conversion.
 			at := colType(qf, arg.S.String())
@@ -345,6 +350,64 @@ func (c *Clause) tla(qf qframe.QFrame) Ev {
 		}
 		return Ev{"k": c.K, "subs": subs}
 	}
+}
+
+// likeTables logs the two library-external references the like/ilike rules are stated in terms of
+// (C18): Unicode upper-casing (strings.ToUpper of the standard library) of the pattern and of every
+// distinct cell, and - for patterns with regular-expression metacharacters - the verdict of Go's
+// regexp package for every candidate way of anchoring the pattern (the specification picks the
+// one the property prescribes; the harness does not know which).
+func likeTables(e Ev, ci bool, pat string, vals []GV) {
+	distinct := []string{}
+	seen := map[string]bool{}
+	for _, v := range vals {
+		if p := v.(*string); p != nil && !seen[*p] {
+			seen[*p] = true
+			distinct = append(distinct, *p)
+		}
+	}
+	if ci {
+		rows := [][]Cell{{encStr(pat), encStr(strings.ToUpper(pat))}}
+		for _, d := range distinct {
+			if d != pat {
+				rows = append(rows, []Cell{encStr(d), encStr(strings.ToUpper(d))})
+			}
+		}
+		e["tbl"] = rows
+	}
+	if regexp.QuoteMeta(pat) == pat {
+		return
+	}
+	bodies := map[string]bool{pat: true}
+	if strings.HasPrefix(pat, "%") {
+		bodies[pat[1:]] = true
+	}
+	if strings.HasSuffix(pat, "%") {
+		bodies[pat[:len(pat)-1]] = true
+		if strings.HasPrefix(pat, "%") && len(pat) >= 2 {
+			bodies[pat[1:len(pat)-1]] = true
+		}
+	}
+	rx := [][]interface{}{}
+	cellsPlus := append([]string{""}, distinct...)
+	for body := range bodies {
+		for _, pre := range []string{"", "^"} {
+			for _, suf := range []string{"", "$"} {
+				for _, fl := range []string{"", "(?i)"} {
+					text := fl + pre + body + suf
+					r, err := regexp.Compile(text)
+					for _, cstr := range cellsPlus {
+						m := 2
+						if err == nil {
+							m = b2i(r.MatchString(cstr))
+						}
+						rx = append(rx, []interface{}{toBS(text), toBS(cstr), m})
+					}
+				}
+			}
+		}
+	}
+	e["rx"] = rx
 }
 
 func convTable(vals []GV) [][]Cell {
